@@ -227,3 +227,32 @@ Theorem C04_kernel_popcount_spec : forall l1 maxKB start stop fuelg fuel l resul
   N.of_nat (popcount_bytes (run_bytes start stop result)) = count_primes_spec start stop.
 Proof. exact kernel_popcount_spec. Qed.
 Print Assumptions C04_kernel_popcount_spec.
+
+(** EratBig: the bucket machine (lists of sieving primes per future segment, rotated after every segment) computes, up to
+    the order inside the lists, what the single-prime loop with an absolute index computes for every stored prime *)
+From Coq Require Import Permutation.
+From PS Require Import Model.EratBigM Proofs.EratBigP Proofs.CrossOffP Proofs.CrossOff210P.
+Theorem C04_eratbig_buckets_refine : forall log2 fuel b acc cl bf, wf log2 b -> eb_cross fuel log2 b acc = Some (cl, bf) ->
+  exists rs, Forall2 (Rst log2) (abs_of log2 b) rs /\ Permutation cl (flat_map fst rs ++ acc) /\
+             Permutation (abs_of log2 bf) (map snd rs) /\ wf log2 bf.
+Proof. exact eb_cross_spec. Qed.
+Print Assumptions C04_eratbig_buckets_refine.
+
+(** ... and that loop, over the wheel-210 table of the source, clears exactly the multiples prime*q for the successive
+    cofactors q coprime to 210 and leaves the state of the next multiple *)
+Theorem C04_cross210_refines : forall fuel size low sp ri qi q i cl i' w',
+  Inv210 low sp ri qi q i ->
+  cross210 fuel size sp i (48 * ri + qi) = Some (cl, i', w') ->
+  exists qe qie, spec_cross210 fuel low size (sprime sp ri) q = Some (cl, qe) /\
+                 Inv210 (low + 30 * size) sp ri qie qe i' /\ w' = 48 * ri + qie.
+Proof. exact cross210_refines. Qed.
+Print Assumptions C04_cross210_refines.
+
+Theorem C04_nextc210_spec : forall q, coprime210 q ->
+  coprime210 (nextc210 q) /\ q < nextc210 q /\ forall x, q < x < nextc210 q -> ~ coprime210 x.
+Proof. exact nextc210_spec. Qed.
+Print Assumptions C04_nextc210_spec.
+
+Theorem C04_cop210_gcd : forall q, coprime210 q <-> N.gcd (q mod 210) 210 = 1.
+Proof. exact cop210_gcd. Qed.
+Print Assumptions C04_cop210_gcd.
